@@ -68,7 +68,9 @@ func expErrors(errs []refexec.ErrEntry, defaultRecover bool) []string {
 // ExpErrorsIndexless is ExpErrors with the element index dropped from the path of null errors of
 // scalar / enum list elements: generated code marshals such elements without a path context of their
 // own, so the error names the list (known finding exec.leaf-list-element-error-path-without-index).
-func ExpErrorsIndexless(errs []refexec.ErrEntry) []string {
+func ExpErrorsIndexless(errs []refexec.ErrEntry) []string { return expErrorsIndexless(errs, false) }
+
+func expErrorsIndexless(errs []refexec.ErrEntry, defaultRecover bool) []string {
 	var cp []refexec.ErrEntry
 	seen := map[string]bool{}
 	for _, e := range errs {
@@ -84,7 +86,7 @@ func ExpErrorsIndexless(errs []refexec.ErrEntry) []string {
 		}
 		cp = append(cp, e)
 	}
-	return ExpErrors(cp)
+	return expErrors(cp, defaultRecover)
 }
 
 const LeafElemPathKey = "exec.leaf-list-element-error-path-without-index"
@@ -124,7 +126,7 @@ func Compare(vec string, ref *refexec.Result, resp *proj.Response, resolverKeys,
 	}
 	got, want := NormErrors(resp.Errors), expErrors(ref.Errors, resp.DefaultRecover)
 	if !sameStrings(got, want) {
-		if sameStrings(got, ExpErrorsIndexless(ref.Errors)) {
+		if sameStrings(got, expErrorsIndexless(ref.Errors, resp.DefaultRecover)) {
 			f := vfrun.Failf(LeafElemPathKey, "[%s] the null error of a scalar list element names the list, not the element\n got: %q\nwant: %q", vec, got, want)
 			if !vfrun.IsKnown(f.Key) {
 				return f
